@@ -544,6 +544,20 @@ func pollCallsReceived(fn *ssa.Function, sel *ssa.Select) bool {
 			if ex, ok := call.Call.Value.(*ssa.Extract); ok && ex.Tuple == ssa.Value(sel) && ex.Index >= 2 {
 				return true
 			}
+			// the received function handed to a wrapper that calls it unconditionally (in its entry block)
+			if callee := call.Call.StaticCallee(); callee != nil && len(callee.Blocks) > 0 {
+				for i, a := range call.Call.Args {
+					ex, ok := a.(*ssa.Extract)
+					if !ok || ex.Tuple != ssa.Value(sel) || ex.Index < 2 || i >= len(callee.Params) {
+						continue
+					}
+					for _, ins2 := range callee.Blocks[0].Instrs {
+						if c2, ok := ins2.(*ssa.Call); ok && c2.Call.Value == ssa.Value(callee.Params[i]) {
+							return true
+						}
+					}
+				}
+			}
 		}
 	}
 	return false
